@@ -320,7 +320,8 @@ def drive_range(cm, np, rng, n_events, out, rep):
             if pos > 0 and len(words) > 0 and pos > len(words) - 1 and not held_seen:
                 pass
             snaps.append((enc.pos(), len(msg)))
-            if rng.random() < 0.1:
+            # clones: now and then, and preferably right after a steered symbol (the encoder is then usually holding words back)
+            if rng.random() < (0.5 if items and items[0][0].get("n") == 1 << 24 else 0.1):
                 enc = enc.clone(); observe(enc, {"ev": "clone"}); rep.cls("clone")
         if rng.random() < 0.05:
             enc.clear(); observe(enc, {"ev": "clear"}); rep.cls("clear"); msg = []; snaps = [(enc.pos(), 0)]
@@ -722,6 +723,10 @@ def main():
     rep = Report()
     try:
         {"ans": drive_ans, "range": drive_range, "chain": drive_chain, "symbol": drive_symbol, "diff": drive_diff}[a.coder](cm, np, rng, a.n, a.out, rep)
+    except (IndexError, NameError, AttributeError, UnboundLocalError, ZeroDivisionError, ImportError):
+        # these are bugs of this driver, not behaviour of the library: report a tool error, never a violation
+        traceback.print_exc()
+        sys.exit(3)
     except BaseException as e:      # a panic in the extension module surfaces as pyo3_runtime.PanicException (a BaseException)
         rep.bad("exception escaped from a Python API call that the driver expects to succeed: %s: %s\n%s" % (type(e).__name__, e, traceback.format_exc()[-1500:]))
     json.dump({"events": rep.events, "classes": rep.classes, "mismatches": rep.mismatches}, open(a.out + ".report.json", "w"))
